@@ -146,7 +146,11 @@ Section IO.
     | PMap c None =>
         match single_leaf c with
         | Some l => if String.eqb (l_cls l) "Key" && String.eqb (l_call l) "equal_to"
-                    then match kw_value l with Some v => Ok (Some v) | None => Err KeyError end
+                    then match kw_value l with
+                         | Some (VStr _ as v) | Some (VFloat _ _ _ as v) => Ok (Some v)
+                         | Some _ => Ok None
+                         | None => Err KeyError
+                         end
                     else Ok None
         | None => Ok None
         end
@@ -194,7 +198,13 @@ Section IO.
                                   | Some v => Ok v
                                   | None => part_to_spec (fst ps)
                                   end) (combine (p_parts p) simples) in
-    Ok (VList specs).
+    (* a non-concrete path keeps at least one part written in full *)
+    if negb (p_concrete p) && forallb (fun s => match s with VDict _ => false | _ => true end) specs then
+      match p_parts p, specs with
+      | p0 :: _, _ :: rest => let* s0 := part_to_spec p0 in Ok (VList (s0 :: rest))
+      | _, _ => Err IndexError
+      end
+    else Ok (VList specs).
 
   Definition mt_name (m : multi_type) : option string :=
     match m with MtNone => None | MtFirst => Some "first" | MtLast => Some "last" | MtSingle => Some "single"
@@ -257,7 +267,7 @@ Section IO.
   Definition strip_all (l : pyval) : res pyval :=
     match l with
     | VList items | VTuple items =>
-        let* r := mapM (fun x => match x with VStr s => Ok (VStr (str_strip s)) | _ => Err AttributeError end) items in Ok (VList r)
+        let* r := mapM (fun x => match x with VStr s => Ok (VStr (str_strip s)) | _ => Err MalformedRule end) items in Ok (VList r)
     | VStr s => Err TypeError          (* item assignment on a str *)
     | VDict _ => Err TypeError
     | _ => Err TypeError
@@ -309,7 +319,7 @@ Section IO.
             | [] => Err MalformedRule
             end) d in
         Ok (l, true)
-    | Some v => if py_truthy v then Err AttributeError else Ok ([], true)
+    | Some v => Err MalformedRule
     end.
 
   Definition rule_from_spec (spec : pyval) : res (ruleterm * rule_extra) :=
